@@ -267,6 +267,17 @@ def _case(arg) -> Dict[str, Any]:
     per_rank = gen.gen_trace_set(seed, n_ranks=1, **kw)
     if len(arg) > 3:
         per_rank = {0: _repetitive_events(*arg[3])}
+    ops = ["aten::mm", "aten::", "autograd", "aten::linear"]
+    if seed % 4 == 1 and len(arg) <= 3:
+        # operator names as the profiler writes them for Python frames and modules: parentheses, dots, brackets, '+', '*' are ordinary characters of a name
+        from collections import Counter
+
+        common = [nm for nm, _ in Counter(e["name"] for e in per_rank[0] if e.get("cat") == "cpu_op" and e["name"] != "aten::first_op").most_common(2)]
+        ren = dict(zip(common, ["nn.Module: Linear_0 (fwd) [a+b]*", "nnXModule: Linear_0 (fwd) [a+b]*"]))
+        for e in per_rank[0]:
+            if e.get("cat") == "cpu_op" and e["name"] in ren:
+                e["name"] = ren[e["name"]]
+        ops = ["nn.Module: Linear_0 (fwd) [a+b]*", "nn.Module", "(fwd)", "aten::"]
     fails: List[Dict[str, Any]] = []
     n = 0
     outdir = tempfile.mkdtemp(prefix="hv_c16_")
@@ -306,7 +317,7 @@ def _case(arg) -> Dict[str, Any]:
                         out += kernels_under(c)
                 return out
 
-            for op in ("aten::mm", "aten::", "autograd", "aten::linear"):
+            for op in ops:
                 inp = {"seed": seed, "operator_name": op, "min_pattern_len": min_len, "top_k": top_k, "events": per_rank}
                 try:
                     res = rt.lib(fails, "get_frequent_cuda_kernel_sequences", inp, ta.get_frequent_cuda_kernel_sequences, operator_name=op, output_dir=outdir,
@@ -351,7 +362,7 @@ def bounded(ctx):
     n = 32 if not ctx.thorough else 400
     rep = [(ctx.seed * 307 + 900 + i, 1 + i % 2, 5, spec) for i, spec in enumerate([(12, 30), (40, 1000), (9, 120)])]  # int8 / int16 / int8 totals beyond the type
     res = rt.pmap(_case, [(ctx.seed * 307 + i, [1, 2, 3][i % 3], [1, 5][i % 2]) for i in range(n)] + rep, ctx.procs)
-    return rt.summarise(res, f"{PROP}.bounded", f"{n} generated traces x 4 operator names (exact, prefix, substring occurring at several depths) x min_pattern_len 1-3 x top_k 1/5, kernels on "
+    return rt.summarise(res, f"{PROP}.bounded", f"{n} generated traces x 4 operator names (exact, prefix, substring occurring at several depths; every fourth trace with names holding parentheses, dots, brackets, + and *) x min_pattern_len 1-3 x top_k 1/5, kernels on "
                         "two streams (overlapping, so sums exceed spans) + 3 repetitive traces whose durations fit int8 / int16 while pattern totals do not; oracle recomputed from the parent column")
 
 
